@@ -8,7 +8,7 @@ arithmetic vs the append order of the call-parameter table; polar->rectangular
 conversion and the magnetic flag selecting the Imagnetic kernel.
 Not decided: equality with recombined non-magnetic evaluations.
 """
-import ast
+import ast, re
 import sympy as sp
 from ..report import run_check, AnalysisError
 from .. import pyfacts as pf
@@ -205,6 +205,19 @@ def _structural(unit, inst, meta, nmag):
     qz = [n for n in cfront.walk(k.body) if n.get("kind") == "IfStmt" and norm(c_text(if_parts(n)[0])).startswith("qsq>")]
     inst("R-C06-loop", bool(qz), fn, "if (qsq > eps) guard around the channel loop", qz[0].get("_line", 0) if qz else 0,
          "q = 0 has no direction")
+    if qz:
+        # the guard removes q = 0 only: qsq is |q|^2, so the threshold is the square of a q below anything measured (1e-6 1/Ang)
+        m_ = re.match(r"^qsq>([0-9.eE+-]+)$", norm(c_text(if_parts(qz[0])[0])))
+        try:
+            eps = float(m_.group(1)) if m_ else None
+        except ValueError:
+            eps = None
+        oke = eps is not None and 0 <= eps <= 1e-12
+        inst("R-C06-loop", oke, fn, "guard threshold qsq > %s" % (m_.group(1) if m_ else "?"), qz[0].get("_line", 0),
+             "|q| below %.0e only" % (eps ** 0.5 if eps else 0) if oke else
+             "qsq is q squared: this threshold zeroes the magnetic kernel for every |q| < %s, a range that is measured (USANS), while the "
+             "non-magnetic kernel of the same model has no such gap - a component evaluated with the mixture's magnetic flag disagrees "
+             "with itself evaluated alone" % ("%.0e" % (eps ** 0.5) if eps else "?"))
     return out
 
 
